@@ -90,6 +90,27 @@ fn invalid_path(rng: &mut Rng, tree: &Node, valid: &[String], order: &[usize]) -
     ("nope".to_string(), pos, "no-leading-slash", true)
 }
 
+/// every digest of a payload: `_sd` entries and array placeholders, at any depth
+fn all_digests(v: &Value, out: &mut Vec<String>) {
+    match v {
+        Value::Object(m) => {
+            for (k, x) in m {
+                if k == "_sd" { if let Value::Array(a) = x { out.extend(a.iter().filter_map(|d| d.as_str().map(|s| s.to_string()))); continue; } }
+                all_digests(x, out);
+            }
+        }
+        Value::Array(a) => {
+            for x in a {
+                match x.as_object().filter(|o| o.len() == 1).and_then(|o| o.get("...")).and_then(|d| d.as_str()) {
+                    Some(d) => out.push(d.to_string()),
+                    None => all_digests(x, out),
+                }
+            }
+        }
+        _ => {}
+    }
+}
+
 pub fn run_case(ctx: &mut Ctx, case: &Value) {
     crate::real::set_current(case);
     ctx.report.evaluations += 1;
@@ -193,12 +214,16 @@ pub fn run_case(ctx: &mut Ctx, case: &Value) {
         }
         Err(_) => (Value::Null, Value::Null),
     };
-    // decoys actually drawn: what the top-level `_sd` holds beyond the model's own digests — ask twice
-    let probe = ctx.driver.ask(&json!({"op":"issue","claims":claims,"paths":paths,"discs":discs0,"decoys":Value::Null,"cnf":if kb { jwk.clone() } else { Value::Null }}));
+    // decoys actually drawn: the digests of the payload (any `_sd` list or array placeholder) that belong to
+    // none of the token's disclosures; the model is then given exactly those
+    let ds0: Vec<String> = discs0.as_array().map(|a| a.iter().filter_map(|d| d.as_str().map(|s| s.to_string())).collect()).unwrap_or_default();
+    let cnf_j = if kb { jwk.clone() } else { Value::Null };
+    let probe = ctx.driver.ask(&json!({"op":"issue","claims":claims,"paths":paths,"discs":discs0,"decoys":Value::Null,"cnf":cnf_j}));
+    let mut drawn: Vec<String> = Vec::new();
     let model_first = if first_ok {
-        let own: Vec<Value> = probe["ok"]["payload"]["_sd"].as_array().cloned().unwrap_or_default();
-        let actual: Vec<Value> = payload0["_sd"].as_array().cloned().unwrap_or_default();
-        let drawn: Vec<Value> = actual.iter().filter(|d| !own.contains(d)).cloned().collect();
+        let own: Vec<String> = ds0.iter().map(|d| crate::tree::sha256_b64(d)).collect();
+        all_digests(&payload0, &mut drawn);
+        drawn.retain(|d| !own.contains(d));
         if let Some(d) = decoy {
             let ok = if d >= 1 { !drawn.is_empty() && drawn.len() as i32 <= d } else { drawn.is_empty() };
             if !ok {
@@ -207,16 +232,45 @@ pub fn run_case(ctx: &mut Ctx, case: &Value) {
         } else if !drawn.is_empty() {
             ctx.report.diff("property", "Issuer::encode", "Issuer::encode:decoy-count", &c2, json!({"max": Value::Null, "drawn": drawn.len()}));
         }
-        ctx.driver.ask(&json!({"op":"issue","claims":claims,"paths":paths,"discs":discs0,"decoys":drawn,"cnf":if kb { jwk.clone() } else { Value::Null }}))
+        ctx.driver.ask(&json!({"op":"issue","claims":claims,"paths":paths,"discs":discs0,"decoys":drawn,"cnf":cnf_j}))
     } else { probe };
     let mclass = if model_first.get("ok").is_some() { "ok" } else if model_first.get("err").is_some() { "err" } else { "panic" };
     if (mclass == "ok") != first_ok {
         ctx.report.diff("correspondence", "Issuer::encode", &format!("Issuer::encode:class:real-{}:model-{}", if first_ok { "ok" } else { "err" }, mclass), &c2,
             json!({"real": outs[0].0.as_ref().err(), "model": model_first, "kind": kind}));
     } else if first_ok {
-        let mut mp = model_first["ok"]["payload"].clone();
-        if let (Some(e), Some(o)) = (payload0.get("exp"), mp.as_object_mut()) { o.insert("exp".into(), e.clone()); }
-        if real::canon_sd(&mp) != real::canon_sd(&payload0) {
+        let with_exp = |m: &Value| { let mut mp = m["ok"]["payload"].clone(); if let (Some(e), Some(o)) = (payload0.get("exp"), mp.as_object_mut()) { o.insert("exp".into(), e.clone()); } mp };
+        let mut mp = with_exp(&model_first);
+        // the model puts the decoys into the top-level `_sd`; the property does not say where they go
+        let same = |a: &Value, b: &Value, drawn: &[String]| real::canon_sd(a) == real::canon_sd(b)
+            || real::canon_sd(&crate::tree::strip_decoys(a, drawn)) == real::canon_sd(&crate::tree::strip_decoys(b, drawn));
+        static SEARCHES: std::sync::atomic::AtomicUsize = std::sync::atomic::AtomicUsize::new(0);
+        // (the search is for the harmless case; a run in which it keeps failing stops searching after 40 cases)
+        if !same(&mp, &payload0, &drawn) && SEARCHES.load(std::sync::atomic::Ordering::Relaxed) < 40 {
+            SEARCHES.fetch_add(1, std::sync::atomic::Ordering::Relaxed);
+            // the disclosures need not come in the order of the paths: which one hides which node is read off the digests
+            let mut t2 = tree.clone();
+            t2.harvest(&payload0, &ds0);
+            let found: std::collections::HashMap<String, String> = t2.marks().iter().filter_map(|m| t2.disc_of_mark(m.id).map(|d| (m.path.clone(), d))).collect();
+            let mut left: std::collections::VecDeque<String> = ds0.iter().filter(|d| !found.values().any(|f| &f == d)).cloned().collect();
+            let by_digest: Vec<String> = paths.iter().map(|p| found.get(p).cloned().or_else(|| left.pop_front()).unwrap_or_default()).collect();
+            // (a crafted extra path that addresses an already hidden element makes two placeholders nest, and the
+            // digests then lead to the outer disclosure first: also try the list with two entries exchanged)
+            let mut candidates: Vec<Vec<String>> = vec![by_digest.clone()];
+            for a in 0..by_digest.len() { for b in a + 1..by_digest.len() { let mut c = by_digest.clone(); c.swap(a, b); candidates.push(c); } }
+            for cand in candidates.into_iter().take(200) {
+                if cand == ds0 { continue; }
+                let again = ctx.driver.ask(&json!({"op":"issue","claims":claims,"paths":paths,"discs":cand,"decoys":drawn,"cnf":cnf_j}));
+                if again.get("ok").is_some() && same(&with_exp(&again), &payload0, &drawn) {
+                    ctx.report.bump("issued:disclosures-not-in-path-order");
+                    mp = with_exp(&again);
+                    SEARCHES.fetch_sub(1, std::sync::atomic::Ordering::Relaxed);
+                    break;
+                }
+            }
+        }
+        if real::canon_sd(&mp) != real::canon_sd(&payload0) && same(&mp, &payload0, &drawn) { ctx.report.bump("issued:decoys-outside-top-level-sd"); }
+        if !same(&mp, &payload0, &drawn) {
             ctx.report.diff("correspondence", "Issuer::encode", "Issuer::encode:payload-differs-from-model", &c2, json!({"real": payload0, "model": mp}));
         }
     }
